@@ -111,6 +111,23 @@ func runC12(c *Ctx) {
 				c.Check("N2-order", fmtKey(fnName(fn), "stage", i+1), k == "sorted-local", st.pos, "stage %d ranges %s (%s); a sorted variant must sort the selection by descending salience first", i+1, what, k)
 			}
 		}
+		// a selected variant never hands the call to a method that runs the whole rule set
+		whole := ""
+		var wholePos token.Pos
+		eachInstrDeep(fn, func(_ *ssa.Function, in ssa.Instruction) {
+			cc := callCommon(in)
+			if cc == nil {
+				return
+			}
+			cal := cc.StaticCallee()
+			if cal == nil || recvName(cal) != "Gengine" || cal.Pkg == nil || cal.Pkg.Pkg.Path() != pEngine {
+				return
+			}
+			if strings.HasPrefix(cal.Name(), "Execute") && !strings.Contains(cal.Name(), "Selected") {
+				whole, wholePos = cal.Name(), in.Pos()
+			}
+		})
+		c.Check("N6-no-whole-set-delegation", fnName(fn), whole == "", orPos(wholePos, fn.Pos()), "a selected-rules call must run the selected set only: it calls %s, which runs every rule of the container", orStr(whole, "no whole-set method"))
 		// single selected rule path of the concurrent / mix variants and errors
 		c.ruleErrSurface("N5-errors-surface", fn)
 		if isNM {
@@ -126,6 +143,7 @@ func runC12(c *Ctx) {
 	c.Min("N3-nothing-selected", 16)
 	c.Min("N5-from-selected-set", 14)
 	c.Min("N2-order", 11)
+	c.Min("N6-no-whole-set-delegation", 8)
 	_ = token.NoPos
 }
 
